@@ -45,7 +45,7 @@ func (a *adversary) newBody(r *run, h uint64, bad bool) *vBlock {
 		prefix = "X"
 	}
 	body := fmt.Sprintf("%s%d.%d", prefix, h, a.forged)
-	a.cl.bodies[body] = true
+	a.cl.addBody(body)
 	return &vBlock{height: h, body: body}
 }
 
